@@ -153,6 +153,10 @@ func NewReader(data io.ReaderAt, size int64, opt *ReaderOptions) (*Reader, error
 		if err == nil {
 			return false
 		}
+		if !IsMalformed(err) {
+			// real failures (I/O errors etc.) are propagated in every mode
+			return true
+		}
 		if opt.ErrorHandling == ErrorHandlingReport {
 			var e *MalformedFileError
 			if errors.As(err, &e) {
